@@ -847,7 +847,11 @@ def run(tier: str, replay: str | None = None):
                 h["concrete"] += 1
                 if acc and py == "ERR":
                     if kind == "partial":
-                        n_partial_unchecked += 1  # partial.__call__(*args, **kwargs) binds; the TypeError is raised by the wrapped call
+                        # known finding: pyanalyze has no model of functools.partial (typeshed's
+                        # partial.__call__(*args, **kwargs)): predicted behaviour = every call accepted
+                        n_partial_unchecked += 1
+                        rep.known("C05-partial-unchecked", KNOWN_TEXT["C05-partial-unchecked"])
+                        hist["known"]["C05-partial-unchecked"] = hist["known"].get("C05-partial-unchecked", 0) + 1
                     else:
                         bad = ("accepted", "CPython raises TypeError")
                 elif not acc and py == "OK":
@@ -857,6 +861,8 @@ def run(tier: str, replay: str | None = None):
                 if acc and not some:
                     if kind == "partial":
                         n_partial_unchecked += 1
+                        rep.known("C05-partial-unchecked", KNOWN_TEXT["C05-partial-unchecked"])
+                        hist["known"]["C05-partial-unchecked"] = hist["known"].get("C05-partial-unchecked", 0) + 1
                     else:
                         bad = ("accepted", "no expansion binds under CPython")
                 elif not acc and some_ne:
@@ -942,6 +948,8 @@ def run(tier: str, replay: str | None = None):
 
 
 KNOWN_TEXT = {
+    "C05-partial-unchecked": "calls to a functools.partial object are never checked (pyanalyze sees typeshed's partial.__call__(*args, **kwargs)): "
+    "p = functools.partial(f, 1) for def f(a, b); p() and p(2, 3, 4) are accepted although binding the wrapped function raises TypeError",
     "C05-keyword-after-star-args": "f(*args, b=1) for def f(a, b) is rejected ('may be filled from both *args and a keyword argument') although f(*[1], b=1) binds",
     "C05-positional-after-star-args": "positional arguments after an unknown-length *args are merged into it: f(*xs, 1, 2) for def f(a) is accepted although no expansion binds",
 }
